@@ -4,7 +4,7 @@
 //!
 //! @assume interpreter state is built directly on the stack (no HintingInstance / Vec): value stack of 8 slots with k<=6 symbolic pre-pushed values, cvt 4 + storage 4 symbolic, 2 function + 2 instruction definitions (function 0 active with a symbolic code range), glyph zone and twilight zone of 4 points each with symbolic unscaled/original/current coordinates and flags, one contour [3]
 //! @assume loop budget counters are <= limit (a counter beyond the limit has already returned ExceededExecutionBudget)
-//! @assume graphics state is the default one except: scale, ppem, is_pedantic, backward_compatibility, zp0-2, rp0-2, loop_counter (<= 0xFFFF) are symbolic (each is settable to that value by one real instruction)
+//! @assume graphics state is the default one except: scale, ppem, is_pedantic, backward_compatibility, zp0-2, rp0-2, loop_counter (<= 4: in non-pedantic mode a pop from an empty stack yields 0, so loop-counted instructions really iterate loop_counter times; larger counters are outside the bound) are symbolic (each is settable to that value by one real instruction)
 //! @bound one decode()+dispatch() of a 6-byte program whose first byte is the (concrete) opcode and whose remaining bytes are symbolic
 #![allow(unused, clippy::all)]
 
@@ -84,7 +84,7 @@ macro_rules! with_engine {
         graphics.rp1 = kani::any();
         graphics.rp2 = kani::any();
         let lc: u32 = kani::any();
-        kani::assume(lc <= 0xFFFF);
+        kani::assume(lc <= 4);
         graphics.loop_counter = lc;
         let code: &[u8] = $code;
         let font_code: [u8; 4] = kani::any();
